@@ -34,6 +34,9 @@ def step (s : DSt) (line : String) : DSt × String :=
   | ["cleartype", t] => ({ s with g := clearType s.g (nat! t) }, "cleartype")
   | ["replay", off, ts, ty, d, opt] =>
     let (e, r) := upcastStored s.g s.errH ⟨nat! off, nat! ts, nat! ty, natList d, nat! opt⟩
+    -- an upcaster with tag ≥ 200 starts a concurrent ClearUpcasts when it is invoked: the chain is applied against
+    -- the registry as it was, the clear takes effect afterwards
+    let s := if r.calls.any (fun c => c.1 ≥ 200) then { s with g := clear s.g } else s
     (s, s!"seen off={e.off} ts={e.ts} ty={e.ty} data={showNatList e.data} opt={e.opt} calls={showCalls r.calls} errh={showCalls r.errCalls}")
   | _ => (s, "bad-op " ++ line)
 
